@@ -183,6 +183,12 @@ func (e *Enc) defineValue(name string, v Value) Value {
 			es[i] = e.defineValue(fmt.Sprintf("%s#%d", name, i), f)
 		}
 		return TupleV{es}
+	case ArrayV:
+		es := make([]Value, len(x.E))
+		for i, f := range x.E {
+			es[i] = e.defineValue(fmt.Sprintf("%s[%d]", name, i), f)
+		}
+		return ArrayV{es}
 	}
 	return v
 }
